@@ -9,7 +9,11 @@
 (* stored clause is a renamed copy), the answers of a probe call, retract/1 of the clause. The      *)
 (* events Engine.tla predicts are the same for both paths by construction; the real interpreter     *)
 (* must reproduce them on both.                                                                     *)
+(*   "init": as "consult", and the observing query is an initialization goal of the SAME text that   *)
+(* first binds the variables named like the clause's (V1, V2, V3): the variables of a clause are     *)
+(* local to it, also for the rest of its text (F27). Replayed with the option directive.             *)
 EXTENDS Engine, Json
+CONSTANT MODES
 X == V(11)
 Y == V(12)
 K == V(9)         \* bound to k before the clause is added
@@ -34,18 +38,21 @@ Helpers == << [key |-> <<"q", 1>>, dyn |-> FALSE, cls |-> << [id |-> 1, head |->
               [key |-> <<"w", 1>>, dyn |-> FALSE, cls |-> << [id |-> 5, head |-> C("w", <<V(1)>>), body |-> TrueA, nv |-> 1] >>] >>
 ClauseT(h, b) == IF b = TrueA THEN h ELSE C(":-", <<h, b>>)
 Db(mode, h, b) == Helpers \o << [key |-> <<"t", 2>>, dyn |-> TRUE,
-                                 cls |-> IF mode = "consult" THEN << MkClause(ClauseT(h, b), Pre, 6) >> ELSE <<>>] >>
+                                 cls |-> IF mode \in {"consult", "init"} THEN << MkClause(ClauseT(h, b), Pre, 6) >> ELSE <<>>] >>
+O(i) == V(20 + i)   \* (observation variables that no clause of the text has a variable named like)
 Query(mode, h, b) ==
   Disj(<< Conj(<< C("=", <<K, A("k")>>), C("=", <<G, Q(X)>>), (IF mode = "assertz" THEN C("assertz", <<ClauseT(h, b)>>) ELSE TrueA), C("=", <<M, A("m")>>),
-                  C("clause", <<T2(V(1), V(2)), V(3)>>), C("w", <<C("cl", <<V(1), V(2), V(3)>>)>>), FailA >>),
+                  (IF mode = "init" THEN Conj(<< C("=", <<V(1), A("u1")>>), C("=", <<V(2), A("u2")>>), C("=", <<V(3), A("u3")>>) >>) ELSE TrueA),
+                  C("clause", <<T2(O(1), O(2)), O(3)>>), C("w", <<C("cl", <<O(1), O(2), O(3)>>)>>),
+                  (IF mode = "init" THEN Conj(<< T2(O(4), O(5)), C("w", <<C("ans", <<O(4), O(5)>>)>>), FailA >>) ELSE FailA) >>),
           Conj(<< T2(V(4), V(5)), C("w", <<C("ans", <<V(4), V(5)>>)>>), FailA >>),
           Conj(<< C("retract", <<C(":-", <<T2(V(6), V(7)), V(10)>>)>>), C("w", <<C("ret", <<V(6), V(7), V(10)>>)>>), FailA >>),
           Conj(<< C("\\+", <<C("clause", <<T2(V(1), V(2)), V(3)>>)>>), C("w", <<A("gone")>>) >>) >>)
 
 VARIABLES st, hist, mode, h, b
 gvars == <<st, hist, mode, h, b>>
-GInit == /\ mode \in {"consult", "assertz"} /\ h \in Heads /\ b \in Bodies
-         /\ st = InitStateX(Db(mode, h, b), Query(mode, h, b), 0, 13)
+GInit == /\ mode \in MODES /\ h \in Heads /\ b \in Bodies
+         /\ st = InitStateX(Db(mode, h, b), Query(mode, h, b), 0, 25)
          /\ hist = <<>>
 GNext == /\ ~Terminal(st)
          /\ \E t \in Steps(st) : /\ ~(st.status = "answer" /\ t.status = "closed")
